@@ -34,6 +34,8 @@ import (
 	"os"
 	"path/filepath"
 	"sync"
+	"syscall"
+	"unsafe"
 
 	"github.com/sharedcode/sop"
 
@@ -71,16 +73,47 @@ func cowPath(base string, block int) string {
 }
 
 func readBlock(base string, block int) ([]byte, error) {
-	f, err := os.Open(segPath(base))
+	b, err := directRead(segPath(base), int64(block)*regx.BlockSize)
+	if err == nil && b == nil {
+		err = fmt.Errorf("segment file ends before block %d", block)
+	}
+	return b, err
+}
+
+// ---- harness-side block I/O: O_DIRECT like the registry itself, so that the page cache never sits
+// between what the registry wrote and what the harness inspects (mixing buffered and direct I/O on
+// one file is not guaranteed coherent) ----
+
+func alignedBlock() []byte {
+	b := make([]byte, 2*regx.BlockSize)
+	off := int(uintptr(unsafe.Pointer(&b[0])) & (regx.BlockSize - 1))
+	if off != 0 {
+		off = regx.BlockSize - off
+	}
+	return b[off : off+regx.BlockSize : off+regx.BlockSize]
+}
+
+// directRead returns the 4096-byte block at byte offset off; (nil, nil) when the file ends before it.
+func directRead(path string, off int64) ([]byte, error) {
+	fd, err := syscall.Open(path, syscall.O_RDONLY|syscall.O_DIRECT, 0)
 	if err != nil {
 		return nil, err
 	}
-	defer f.Close()
-	b := make([]byte, regx.BlockSize)
-	if _, err := f.ReadAt(b, int64(block)*regx.BlockSize); err != nil {
+	defer syscall.Close(fd)
+	buf := alignedBlock()
+	n, err := syscall.Pread(fd, buf, off)
+	if err != nil {
 		return nil, err
 	}
-	return b, nil
+	if n == 0 {
+		return nil, nil
+	}
+	if n != regx.BlockSize {
+		return nil, fmt.Errorf("short direct read: %d bytes at %d of %s", n, off, path)
+	}
+	out := make([]byte, regx.BlockSize)
+	copy(out, buf)
+	return out, nil
 }
 
 func randHandle(id sop.UUID, rnd *rand.Rand) sop.Handle {
@@ -222,15 +255,25 @@ func (c *Case) region() string {
 type worker struct {
 	base string
 	r    *report.Run
-	f    *os.File // buffered handle on the segment file, used only by the harness to place/inspect bytes
+	fd   int    // harness-side O_DIRECT descriptor on the segment file
+	buf  []byte // aligned scratch block
 }
 
 func (w *worker) readBlock(block int) ([]byte, error) {
-	b := make([]byte, regx.BlockSize)
-	if _, err := w.f.ReadAt(b, int64(block)*regx.BlockSize); err != nil {
-		return nil, err
+	n, err := syscall.Pread(w.fd, w.buf, int64(block)*regx.BlockSize)
+	if err != nil || n != regx.BlockSize {
+		return nil, fmt.Errorf("direct read: n=%d err=%v", n, err)
 	}
-	return b, nil
+	return append([]byte(nil), w.buf...), nil
+}
+
+func (w *worker) writeBlock(block int, data []byte) error {
+	copy(w.buf, data)
+	n, err := syscall.Pwrite(w.fd, w.buf, int64(block)*regx.BlockSize)
+	if err != nil || n != regx.BlockSize {
+		return fmt.Errorf("direct write: n=%d err=%v", n, err)
+	}
+	return nil
 }
 
 // at most maxWitnesses violations per signature are handed to the report (each with full detail);
@@ -243,10 +286,8 @@ var (
 )
 
 func (w *worker) setState(c *Case, mutated []byte) error {
-	if cur, err := w.readBlock(c.Block); err != nil || !bytes.Equal(cur, mutated) {
-		if _, err := w.f.WriteAt(mutated, int64(c.Block)*regx.BlockSize); err != nil {
-			return err
-		}
+	if err := w.writeBlock(c.Block, mutated); err != nil {
+		return err
 	}
 	cp := cowPath(w.base, c.Block)
 	var data []byte
@@ -479,17 +520,33 @@ func Run(r *report.Run) int {
 		for _, bk := range backupKinds {
 			for bit := 0; bit < regx.BlockSize*8; bit++ {
 				byteIdx := bit / 8
+				perByte := bit%8 == byteIdx%8                    // one bit per byte, rotating bit index
+				per4 := byteIdx%4 == 1 && bit%8 == (byteIdx/4)%8 // one bit per 4 bytes
+				heavy := bk.kind == "none" || bk.kind == "garbage-crc" || bk.kind == "valid"
 				switch {
-				case r.Thorough() && (full || bk.kind == "none"):
-					// every flip: under every backup state for the reference block, with no backup for the others
-					mk(bk, "bit", bit, 1, byteIdx, true)
-				case bk.kind == "none" && full:
-					// quick: every flip is looked up; the update half on one bit per byte (rotating bit index)
-					mk(bk, "bit", bit, 1, byteIdx, bit%8 == byteIdx%8)
-				case r.Thorough() && bit%8 == byteIdx%8:
-					mk(bk, "bit", bit, 1, byteIdx, true) // one bit per byte
-				case !r.Thorough() && byteIdx%4 == 1 && bit%8 == (byteIdx/4)%8:
-					mk(bk, "bit", bit, 1, byteIdx, true) // quick, other backup states: one bit per 4 bytes
+				case !r.Thorough() && bk.kind == "none":
+					// quick: every flip is looked up; the update half on one bit per byte
+					mk(bk, "bit", bit, 1, byteIdx, perByte)
+				case !r.Thorough():
+					if per4 {
+						mk(bk, "bit", bit, 1, byteIdx, true)
+					}
+				case full && heavy:
+					mk(bk, "bit", bit, 1, byteIdx, true) // every flip
+				case full:
+					if perByte {
+						mk(bk, "bit", bit, 1, byteIdx, true)
+					}
+				case bk.kind == "none" && sp.mod == 1:
+					mk(bk, "bit", bit, 1, byteIdx, true) // every flip, fill 1 and fill 66
+				case bk.kind == "none":
+					if perByte {
+						mk(bk, "bit", bit, 1, byteIdx, true)
+					}
+				default:
+					if per4 {
+						mk(bk, "bit", bit, 1, byteIdx, true)
+					}
 				}
 			}
 			if r.Thorough() {
@@ -509,7 +566,7 @@ func Run(r *report.Run) int {
 			}
 		}
 		if full {
-			r.Set("single_bit_flips_enumerated_completely_for", fmt.Sprintf("mod=%d block=%d fill=%d, backup state none%s", sp.mod, sp.block, sp.fill, map[bool]string{true: " and all 6 other backup states", false: ""}[r.Thorough()]))
+			r.Set("single_bit_flips_enumerated_completely_for", fmt.Sprintf("mod=%d block=%d fill=%d, backup state none%s", sp.mod, sp.block, sp.fill, map[bool]string{true: ", garbage-crc and valid; also fill 1 and fill 66 with no backup", false: ""}[r.Thorough()]))
 		}
 	}
 	r.Set("planned_cases", len(cases))
@@ -532,18 +589,18 @@ func Run(r *report.Run) int {
 						r.Broken("create segment: %v", err)
 						continue
 					}
-					f, err := os.OpenFile(segPath(base), os.O_RDWR, 0o644)
+					fd, err := syscall.Open(segPath(base), syscall.O_RDWR|syscall.O_DIRECT, 0)
 					if err != nil {
 						r.Broken("open segment: %v", err)
 						continue
 					}
-					w = &worker{base: base, r: r, f: f}
+					w = &worker{base: base, r: r, fd: fd, buf: alignedBlock()}
 					ws[c.Mod] = w
 				}
 				w.run(c)
 			}
 			for _, w := range ws {
-				w.f.Close()
+				syscall.Close(w.fd)
 				env.Remove(w.base)
 			}
 		}()
@@ -567,7 +624,7 @@ func Run(r *report.Run) int {
 	return r.Finish(rule, assumptions, len(planned))
 }
 
-const rule = "case = (written block image, damage, backup state, looked-up id, updated id, update entry point); damage = single-bit flip (quick: all 32768 flips of the reference block with no backup (lookup on every flip, update on one bit per byte), and one bit per 4 bytes under each of the 6 other backup states; thorough: all flips under all 7 backup states for the reference block, all flips with no backup for 4 more images (fill 1, 66, mod 2, mod 250) plus 600 bursts per image and backup state); fingerprint = (mod, fill, backup kind, damage kind, damaged region relative to the looked-up id, update entry point); non-trivial = the mutated block is invalid by the oracle's own checksum rule; floor = number of planned (image, backup kind, damage kind) classes"
+const rule = "case = (written block image, damage, backup state, looked-up id, updated id, update entry point); damage = single-bit flip (quick: all 32768 flips of the reference block with no backup (lookup on every flip, update on one bit per byte), and one bit per 4 bytes under each of the 6 other backup states; thorough: all flips of the reference block with no / checksum-invalid / valid backup and one bit per byte under the other 4 backup states, all flips with no backup for fill 1 and fill 66, one bit per byte for mod 2 and mod 250, one bit per 4 bytes for their other backup states, plus 600 bursts per image and backup state); fingerprint = (mod, fill, backup kind, damage kind, damaged region relative to the looked-up id, update entry point); non-trivial = the mutated block is invalid by the oracle's own checksum rule; floor = number of planned (image, backup kind, damage kind) classes"
 
 var assumptions = []string{
 	"the block is corrupted and the .cow file is placed with plain buffered file writes while no registry instance is open; every lookup/update then goes through a fresh fs.NewRegistry with a fresh in-memory L2 cache (disk truth)",
